@@ -327,15 +327,18 @@ Print Assumptions C12_reopen_float_level.
 (* Round 4: arguments, probe types, shanks processed                   *)
 (* ------------------------------------------------------------------ *)
 
-(* Which probe types are converted (commercial type numbers included), and what the default
-   arguments mean: nwindow=None is the 2 s window 60000 (admissible), nsamples=None the whole file. *)
+(* Which probe types are converted (commercial type numbers included), what the default arguments
+   mean: nwindow=None is the 2 s window 60000 (admissible), nsamples=None the whole file; and which
+   window sizes init_params accepts: the multiples of 12 longer than the 576-sample overlap. *)
 Theorem C12_probe_types_and_defaults :
   (forall t, np_version t = 21 <-> t = 21 \/ t = 1030) /\
   (forall t, np_version t = 24 <-> t = 24 \/ t = 2013) /\
   window_of 0 = 60000 /\ admissible (window_of 0) = true /\
-  (forall nsf, nsamples_of 0 nsf = nsf) /\ (forall a nsf, a <> 0 -> nsamples_of a nsf = a).
+  (forall nsf, nsamples_of 0 nsf = nsf) /\ (forall a nsf, a <> 0 -> nsamples_of a nsf = a) /\
+  (forall W, admissible W = true <-> W mod 12 = 0 /\ 576 < W) /\
+  (forall a, a <> 0 -> window_of a = a).
 Proof.
-  split; [|split; [|split; [reflexivity|split; [reflexivity|split]]]].
+  split; [|split; [|split; [reflexivity|split; [reflexivity|split; [|split; [|split]]]]]].
   - intros t. unfold np_version.
     destruct (t =? 21) eqn:E1; destruct (t =? 1030) eqn:E2; destruct (t =? 24) eqn:E3; destruct (t =? 2013) eqn:E4;
       cbn [orb]; lia.
@@ -344,6 +347,8 @@ Proof.
       cbn [orb]; lia.
   - intros nsf. reflexivity.
   - intros a nsf Ha. unfold nsamples_of. destruct (a =? 0) eqn:E; [lia|reflexivity].
+  - exact admissible_spec.
+  - intros a Ha. unfold window_of. destruct (a =? 0) eqn:E; [lia|reflexivity].
 Qed.
 Print Assumptions C12_probe_types_and_defaults.
 
